@@ -133,11 +133,17 @@ pub fn exec(song: &mut Song, tokens: &Vec<Token>) -> bool {
                 };
                 if it.index == (it.count - 1) {
                     if it.end_pos == 0 {
+                        // find the end of this loop, skipping loops nested after ':'
+                        let mut depth = 0;
                         for i in pos..tokens.len() {
                             match &tokens[i].ttype {
+                                TokenType::LoopBegin => { depth += 1; }
                                 TokenType::LoopEnd => {
-                                    it.end_pos = i + 1;
-                                    break;
+                                    if depth == 0 {
+                                        it.end_pos = i + 1;
+                                        break;
+                                    }
+                                    depth -= 1;
                                 }
                                 _ => {}
                             }
